@@ -107,6 +107,10 @@ type State struct {
 	notes   []string
 	callN   map[string]int // callee short name -> count so far (for call-site obligations)
 	imprecise bool
+	// epochDirty: some havoc-everything on this path was NOT a loop-head havoc
+	// covered by the assumed loop frame; a heap first touched afterwards then
+	// has no known relation to its entry value
+	epochDirty bool
 	dead      bool // the path ended inside a callee that does not return
 	epochAll  int
 	epochExt  int
@@ -125,7 +129,7 @@ func (st *State) clone() *State {
 		iters: make(map[ssa.Value]Term, len(st.iters)), path: st.path[:len(st.path):len(st.path)],
 		variant: make(map[string]Term, len(st.variant)), inLoop: make(map[string]bool, len(st.inLoop)),
 		notes: st.notes[:len(st.notes):len(st.notes)], callN: make(map[string]int, len(st.callN)),
-		imprecise: st.imprecise, ex: st.ex, epochAll: st.epochAll, epochExt: st.epochExt, allocCtr: st.allocCtr,
+		imprecise: st.imprecise, epochDirty: st.epochDirty, ex: st.ex, epochAll: st.epochAll, epochExt: st.epochExt, allocCtr: st.allocCtr,
 	}
 	for k, v := range st.regs {
 		n.regs[k] = v
@@ -247,6 +251,11 @@ func (st *State) heap(name, sort string) Term {
 	}
 	t := st.lazyHeap(name, sort, st.epochAll, st.epochExt)
 	st.heaps[name] = t
+	if st.ex != nil && !st.epochDirty && !strings.HasSuffix(t.S, "_0") {
+		// first touched after loop-head havocs only: the loop frame (an implicit
+		// invariant checked on every back edge) relates it to the entry value
+		st.ex.lazyLoopFrame(st, name, t)
+	}
 	return t
 }
 
